@@ -63,3 +63,18 @@ CLAIMED["C11"] = {
   "note": "Order preservation, injectivity and inversion of the encoding are value-level and not decided.",
   "technique": "three-valued dispatch-table evaluation per enum constructor + field/flag dataflow on MIR",
 }
+CLAIMED["C01"] = {
+  "text": "Decides the structural preconditions of C01 on every site: safe code cannot forge or bypass validation (84 unchecked/FFI entry points are `unsafe fn`, 26 representations private, 18 compile-fail witnesses); ArrayData validation discharges every layout obligation for all 41 DataType constructors and the 20 checked constructors keep validating each stored operand; decoders construct unchecked only behind the unsafe flag / from audited sites; ArrayData::ptr_eq compares every field of both operands; RecordBatch writes schema and columns together; sibling arms of kernel dispatches agree on slicing parameters and (buffer, offset) pairs come from one object.",
+  "note": "The universal clause - every kernel computes right offsets, null counts and keys - is value-level and not decided; these are the necessary conditions visible in the shape of the code. Shares rule engines and tables with C09/C08/C03.",
+  "technique": "API facts + compile-fail witnesses + dispatch-table evaluation + taint-to-rejecting-branch + field-effect sets (MIR, custom rustc driver)",
+}
+CLAIMED["C02"] = {
+  "text": "Decides structural clauses of C02: equal_values routes all 41 DataType constructors and equality compares null masks before values; every arm of the equality/comparison dispatches uses the slicing parameters its siblings use (reference table of 8 variables, identified by parameter position / producing call); (buffer, bit-offset) argument pairs always come from the same object (18 sites) - a mismatched pair is right for unsliced inputs only; array types with out-of-band nulls override logical_nulls/is_nullable; fallible element closures run on valid slots only.",
+  "note": "Congruence of kernels under re-slicing/padding and commutation with row selection are relations between two executions and are not decided.",
+  "technique": "sibling-arm agreement and argument-pair provenance on MIR + dispatch-table evaluation + control dependence",
+}
+CLAIMED["C03"] = {
+  "text": "Decides routing totality and sibling agreement for the selection kernels: filter, take, concat, interleave, the MutableArrayData extend tables, make_array, layout and new_buffers are evaluated for every DataType constructor (369 type x table instances) and none falls into a diverging arm except the three enumerated constructors routed elsewhere; every arm of the strategy/type dispatches uses the slicing parameters its siblings use ('one arm forgot + offset').",
+  "note": "That exactly the selected rows are moved, in order, and the coalescer's batch sizes are value/history-level and not decided.",
+  "technique": "dispatch-table evaluation per enum constructor + sibling-arm agreement on MIR",
+}
